@@ -181,7 +181,9 @@ fn eval_builtin_incbin(
         }
     };
 
-    if bytes.len() == 0
+    // The whole of an empty file is an empty value, but
+    // any other range of it lies after EOF
+    if bytes.len() == 0 && start == 0 && end == 0
     {
         return Ok(expr::Value::make_integer(util::BigInt::from_bytes_be(&[])));
     }
